@@ -27,6 +27,38 @@ func sm2Overrides() map[string]string {
 	}
 }
 
+// sm2OverridesAbs: additionally abstracts modular addition/subtraction (data-flow harnesses)
+func sm2OverridesAbs() map[string]string {
+	m := sm2Overrides()
+	m["(*"+driver.Module+"/internal/bigmod.Nat).Add"] = "verifModel_Nat_Add"
+	m["(*"+driver.Module+"/internal/bigmod.Nat).Sub"] = "verifModel_Nat_Sub"
+	return m
+}
+
+// sm9Overrides: abstract SM9 groups (harness/internal/sm9/bn256/models_purego.go)
+func sm9Overrides() map[string]string {
+	m := driver.Module + "/internal/sm9/bn256"
+	return map[string]string{
+		m + ".gfpMul":      "verifModel_gfpMul",
+		m + ".montEncode":  "verifModel_montEncode",
+		m + ".montDecode":  "verifModel_montDecode",
+		"(*" + m + ".curvePoint).IsOnCurve": "verifModel_curvePoint_IsOnCurve",
+		"(*" + m + ".twistPoint).IsOnCurve": "verifModel_twistPoint_IsOnCurve",
+		"(*" + m + ".G1).ScalarBaseMult":    "verifModel_G1_ScalarBaseMult",
+		"(*" + m + ".G1).ScalarMult":        "verifModel_G1_ScalarMult",
+		"(*" + m + ".G1).Add":               "verifModel_G1_Add",
+		"(*" + m + ".G1).fillBytes":         "verifModel_G1_fillBytes",
+		"(*" + m + ".G2).ScalarBaseMult":    "verifModel_G2_ScalarBaseMult",
+		"(*" + m + ".G2).ScalarMult":        "verifModel_G2_ScalarMult",
+		"(*" + m + ".G2).Add":               "verifModel_G2_Add",
+		"(*" + m + ".G2).fillBytes":         "verifModel_G2_fillBytes",
+		m + ".Pair":                         "verifModel_Pair",
+		"(*" + m + ".GT).ScalarMult":        "verifModel_GT_ScalarMult",
+		"(*" + m + ".GT).Marshal":           "verifModel_GT_Marshal",
+		driver.Module + "/internal/bigmod.bitLen": "verifModel_bitLen",
+	}
+}
+
 func init() {
 	register(&driver.Check{
 		ID: "C12",
@@ -56,9 +88,22 @@ func init() {
 					cs = append(cs, driver.Case{Harness: "verifH_c12_ecdh_genkey", Pkg: "ecdh", Config: "purego", Params: P("failat", failAt, "mode", mode), MaxUnwind: 200, TimeoutS: 1200, MustReach: reach})
 				}
 			}
+			// SM9: ephemeral scalars and master-key generation (short reads, errors, EOF at any call)
+			for failAt := 1; failAt <= 3; failAt++ {
+				for mode := 1; mode <= 3; mode++ {
+					reach := []string{"failed"}
+					if failAt > 1 || mode == 3 {
+						reach = []string{"failed", "ok"}
+					}
+					cs = append(cs, driver.Case{Harness: "verifH_c12_sm9_randomscalar", Pkg: "internal/sm9", Config: "purego", Params: P("failat", failAt, "mode", mode), Overrides: sm9Overrides(), MaxUnwind: 200, MaxPaths: 400, TimeoutS: 1200, MustReach: reach})
+					for which := 0; which <= 1; which++ {
+						cs = append(cs, driver.Case{Harness: "verifH_c12_sm9_genmaster", Pkg: "internal/sm9", Config: "purego", Params: P("failat", failAt, "mode", mode, "which", which), Overrides: sm9Overrides(), MaxUnwind: 200, MaxPaths: 400, TimeoutS: 1200, MustReach: reach})
+					}
+				}
+			}
 			return cs
 		},
-		Functions:   []string{"ecdh.(*sm2Curve).GenerateKey/NewPrivateKey, isLess", "internal/randutil.MaybeReadByte (reads one byte or none)", "sm2.randomPoint", "internal/bigmod.(*Nat).{SetBytes,IsZero,Equal,Bytes,...} (real limb code)", "io.ReadFull"},
+		Functions:   []string{"internal/sm9.randomScalar, GenerateSignMasterKey, GenerateEncryptMasterKey, NewSignMasterPrivateKey, NewEncryptMasterPrivateKey, isLess", "ecdh.(*sm2Curve).GenerateKey/NewPrivateKey, isLess", "internal/randutil.MaybeReadByte (reads one byte or none)", "sm2.randomPoint", "internal/bigmod.(*Nat).{SetBytes,IsZero,Equal,Bytes,...} (real limb code)", "io.ReadFull"},
 		Assumptions: []string{"scripted random source: fresh symbolic 32-byte blocks; at a chosen call index it returns an error or half a block followed by EOF", "group/field arithmetic abstract (uninterpreted functions over coordinates; harness/internal/sm2ec)"},
 		Bounds:      map[string]string{"quick": "up to 3 blocks before the source fails", "thorough": "same"},
 		Outside:     []string{"randFieldElement (math/big; legacy curves and sm2.KeyExchange)", "uniformity itself (follows from exact-block + rejection)"},
